@@ -513,6 +513,8 @@ type c09Conc struct {
 	G      int    `json:"goroutines"`
 	Rounds int    `json:"rounds"`
 	Method int    `json:"method"` // all items go in through Add (0), AddHash (1) or AddOutPoint (2)
+	// Reload: meanwhile one more goroutine keeps re-loading two messages of different size / function count / tweak
+	Reload bool `json:"reload,omitempty"`
 }
 
 func evalC09Conc(c c09Conc, o *Obs) error {
@@ -533,15 +535,40 @@ func evalC09Conc(c c09Conc, o *Obs) error {
 		}
 		m.add(items[i])
 	}
+	// the second geometry and what the items can set under it
+	len2, k2, tweak2 := c.Len/2+3, c.K%3+1, c.Tweak^0x9e3779b9
+	m2 := newRefBloom(len2, k2, tweak2, 0)
+	for _, it := range items {
+		m2.add(it)
+	}
 	for r := 0; r < c.Rounds; r++ {
-		f := bloom.LoadFilter(wire.NewMsgFilterLoad(make([]byte, c.Len), c.K, c.Tweak, wire.BloomUpdateNone))
+		msgA := wire.NewMsgFilterLoad(make([]byte, c.Len), c.K, c.Tweak, wire.BloomUpdateNone)
+		msgB := wire.NewMsgFilterLoad(make([]byte, len2), k2, tweak2, wire.BloomUpdateNone)
+		f := bloom.LoadFilter(msgA)
 		var wg sync.WaitGroup
+		panicCh := make(chan error, 16)
 		start := make(chan struct{})
+		if c.Reload {
+			wg.Add(1)
+			go func() {
+				defer wg.Done()
+				defer c20Recover(panicCh)
+				<-start
+				for i := 0; i < 2*len(items)/c.G+2; i++ {
+					if i%2 == 0 {
+						f.Reload(msgB)
+					} else {
+						f.Reload(msgA)
+					}
+				}
+			}()
+		}
 		for g := 0; g < c.G; g++ {
 			g := g
 			wg.Add(1)
 			go func() {
 				defer wg.Done()
+				defer c20Recover(panicCh)
 				<-start
 				for i := g; i < len(items); i += c.G {
 					switch c.Method {
@@ -556,7 +583,22 @@ func evalC09Conc(c c09Conc, o *Obs) error {
 			}()
 		}
 		close(start)
-		wg.Wait()
+		if err := c20Join(&wg, panicCh, fmt.Sprintf("(filter len=%d k=%d, %d inserting goroutines, reload=%v)", c.Len, c.K, c.G, c.Reload)); err != nil {
+			return err
+		}
+		if c.Reload {
+			// each insertion went into one of the two messages, with that message's geometry: no bit may be set
+			// that no item sets under the message's own size, function count and tweak
+			for name, pair := range map[string][2][]byte{"first": {msgA.Filter, m.bits}, "second": {msgB.Filter, m2.bits}} {
+				for i := range pair[0] {
+					if pair[0][i]&^pair[1][i] != 0 {
+						return fmt.Errorf("filter re-loaded during insertions (round %d): the %s message (len %d) has bits %x set in byte %d that no inserted item sets under that message's parameters (bits computed for the other message were written into it)",
+							r, name, len(pair[0]), pair[0][i]&^pair[1][i], i)
+					}
+				}
+			}
+			continue
+		}
 		if got := f.MsgFilterLoad().Filter; !bytes.Equal(got, m.bits) {
 			return fmt.Errorf("filter(len=%d,k=%d): after %d goroutines inserted %d different items at the same time (round %d) the bit array is %x; the OR of all insertions is %x (an insertion was lost)",
 				c.Len, c.K, c.G, len(items), r, clip(got), clip(m.bits))
@@ -568,7 +610,7 @@ func evalC09Conc(c c09Conc, o *Obs) error {
 var kC09Conc = register(&Kind[c09Conc]{Prop: "C09", Name: "concurrent-insert", Eval: evalC09Conc,
 	Gen: func(t *rapid.T) c09Conc {
 		c := c09Conc{Len: rapid.SampledFrom([]int{8, 16, 64, 256}).Draw(t, "len"), K: uint32(rapid.IntRange(1, 3).Draw(t, "k")), Tweak: rapid.Uint32().Draw(t, "tweak"),
-			G: rapid.IntRange(2, 8).Draw(t, "g"), Rounds: pick(200, 2000), Method: rapid.IntRange(0, 2).Draw(t, "method")}
+			G: rapid.IntRange(2, 8).Draw(t, "g"), Rounds: pick(200, 2000), Method: rapid.IntRange(0, 2).Draw(t, "method"), Reload: rapid.IntRange(0, 2).Draw(t, "reload") == 0}
 		c.N = c.Len * 4 / int(c.K) // about half of the bits end up set: most insertions set a bit for the first time
 		if c.N < c.G {
 			c.N = c.G
